@@ -792,8 +792,7 @@ Proof. unfold lint_stack. simpl gnodes. apply stack_loop_strip. Qed.
 
 Lemma lint_callee_saved_strip g : lint_callee_saved (strip g) = lint_callee_saved g.
 Proof.
-  unfold lint_callee_saved. simpl glabelfn. apply flat_map_ext. intros lf. simpl gfuncs.
-  destruct (nth_opt (gfuncs g) (snd lf)); [|reflexivity].
+  unfold lint_callee_saved. simpl gfuncs. apply flat_map_ext. intros f.
   simpl gnodes. rewrite getn_strip. destruct (getn (gnodes g) (fexit f)); cbn [option_map]; [|reflexivity].
   apply flat_map_ext. intros r. rewrite erfs_strip. reflexivity.
 Qed.
